@@ -1337,6 +1337,33 @@ M('C02', 'original defect: get_block(insert=True) appends to the shared _data li
   "                self._data = self._data + [res]  # not append: a shallow copy shares the list\n", "                self._data.append(res)\n",
   'COUPLED-shared-list')
 
+M('C04', 'original defect: compiled iadd_prefactor_other transposes other after the leg check and the sort', PYXF,
+  """    other = other._transpose_same_labels(self._labels)  # first: changes the legs and un-sorts _qdata
+    if not optimize(OptimizationFlag.skip_arg_checks):
+        if self.rank != other.rank:
+            raise ValueError("different rank!")
+        for self_leg, other_leg in zip(self.legs, other.legs):
+            self_leg.test_equal(other_leg)
+        if np.any(self.qtotal != other.qtotal):
+            raise ValueError("Arrays can't have different `qtotal`!")
+    if prefactor == 0.:
+        return self # nothing to do
+    self.isort_qdata()
+    other.isort_qdata()
+""", """    if not optimize(OptimizationFlag.skip_arg_checks):
+        if self.rank != other.rank:
+            raise ValueError("different rank!")
+        for self_leg, other_leg in zip(self.legs, other.legs):
+            self_leg.test_equal(other_leg)
+        if np.any(self.qtotal != other.qtotal):
+            raise ValueError("Arrays can't have different `qtotal`!")
+    if prefactor == 0.:
+        return self # nothing to do
+    self.isort_qdata()
+    other.isort_qdata()
+    other = other._transpose_same_labels(self._labels)
+""", 'PAIR-sort-after-reorder')
+
 # ---------------------------------------------------------------- C16 / C19
 M('C16', 'GMRES restart: relative residual norm used for normalisation (round-3 seed b)', KRY,
   """        self.total_error.append([npc.norm(self.rs[-1]) / self.b_norm])
